@@ -296,3 +296,17 @@ Proof.
       assert (Hx : Some t' = None) by (apply Hn'; split; assumption). discriminate Hx.
     + split; reflexivity.
 Qed.
+
+(* the same for ProcessCommitments itself: the resulting pool does not depend on the member
+   order either (it is determined by the outcome class) *)
+Theorem process_member_order_irrelevant_full c c' p strag timeout :
+  Permutation c c' ->
+  fst (process c p strag timeout) = fst (process c' p strag timeout) /\
+  outcome_code (snd (process c p strag timeout)) = outcome_code (snd (process c' p strag timeout)) /\
+  chosen (snd (process c p strag timeout)) = chosen (snd (process c' p strag timeout)).
+Proof.
+  intros HP. destruct (process_member_order_irrelevant c c' p strag timeout HP) as [Hc Hch].
+  unfold process.
+  destruct (process_inner c p strag timeout) eqn:O; destruct (process_inner c' p strag timeout) eqn:O';
+    cbn [outcome_code] in Hc; try discriminate Hc; cbn [fst snd outcome_code]; repeat split; try reflexivity; exact Hch.
+Qed.
